@@ -41,7 +41,24 @@ def fixed_context():
     spec['asts']['P2'] = 'P2:==[a∈ℬ(X1), b∈ℬ(X1)] a=b'
     spec['types']['A1'] = 'LOGIC'
     spec['vclass']['A1'] = 'value'
+    # two functions sharing the formal name 'a': one takes a property argument for it, the other needs it as a value
+    spec['types']['F7'] = {'B': {'B': {'b': 'X1'}}}
+    spec['funcs']['F7'] = [['a', {'B': {'B': {'b': 'X1'}}}]]
+    spec['vclass']['F7'] = 'value'
+    spec['asts']['F7'] = 'F7:==[a∈ℬℬ(X1)] a∪{X1}'
+    spec['types']['F8'] = {'b': 'Z'}
+    spec['funcs']['F8'] = [['a', {'B': {'b': 'X1'}}], ['b', {'B': {'B': {'b': 'X1'}}}]]
+    spec['vclass']['F8'] = 'value'
+    spec['asts']['F8'] = 'F8:==[a∈ℬ(X1), b∈ℬℬ(X1)] card(a)'
     return spec
+
+
+# a re-declaration of F7 with the same arity and another argument type (and back): the context changes, the analysers stay
+PATCHES = [
+    {'types': {'F7': {'B': {'b': 'X1'}}}, 'funcs': {'F7': [['a', {'B': {'t': [{'b': 'X1'}, {'b': 'X1'}]}}]]}, 'asts': {'F7': 'F7:==[a∈ℬ(X1×X1)] Pr1(a)'}},
+    {'types': {'F7': {'B': {'B': {'b': 'X1'}}}}, 'funcs': {'F7': [['a', {'B': {'B': {'b': 'X1'}}}]]}, 'asts': {'F7': 'F7:==[a∈ℬℬ(X1)] a∪{X1}'}},
+    {'types': {'F7': {'B': {'b': 'X1'}}}, 'funcs': {'F7': [['a', {'B': {'b': 'X1'}}]]}, 'asts': {'F7': 'F7:==[a∈ℬ(X1)] a∪D1'}},
+]
 
 
 KINDS = {
@@ -58,6 +75,7 @@ KINDS = {
     'eval-error': ['debool(X1)', 'debool(X1\\X1)', '1∈Z', 'card(Z)', 'R{x:=0 | x<200000 | x+1}', 'D{x∈X1 | debool(D1)=x}', '∀x∈X1 debool({x,1})=x'],
     'ascii': ['X1 \\union D1', '\\A x \\in X1 x \\in D1', 'D{x \\in X1 | x \\eq x}', 'B(X1)', 'X1*D1', 'card(X1) \\gr 1', 'X1 \\union', '\\A x X1'],
     'empty': ['', ' ', '\n'],
+    'props-calls': ['F7[ℬ(X1)]', 'F8[X1, ℬ(X1)]', 'F8[D1, ℬ(D1)]', 'F7[ℬ(D1)]', 'F7[X1×X1]', 'F7[X1]', 'F7[{X1}]', 'card(F7[ℬ(X1)])>F8[X1, ℬ(X1)]'],
     'reuse-names': ['∀a∈X1 a∈X1', 'D{a∈ℬ(X1) | a=a}', '[a∈ℬ(X1)] a∪a', '∀b∈X1 ∃c∈X1 b=c', 'F9 \\defexpr [a \\in B(X1)] a \\union X1', '∀x∈X1 ∀y∈X1 x=y', 'D{x∈X1 | ∃y∈D1 y=x}'],
 }
 
@@ -74,6 +92,10 @@ def sequence_case(spec, seq):
     ops = [{'op': 'rs.ctx', 'ctx': 'c', 'spec': spec}]
     plan = [None]
     for k, (kind, text) in enumerate(seq):
+        if kind == 'ctx-patch':
+            ops.append({'op': 'rs.ctx.patch', 'ctx': 'c', 'spec': PATCHES[text]})
+            plan.append(None)
+            continue
         for o in ops_for(text, 'h'):
             ops.append(o)
             plan.append(['h', k])
@@ -100,6 +122,12 @@ def gen_cases(desc, env):
                     reps = 2 if env.tier == 'quick' else 8
                     for _ in range(reps):
                         seq = [(a, rnd.choice(KINDS[a])), (b, rnd.choice(KINDS[b])), (b, rnd.choice(KINDS[b])), (a, rnd.choice(KINDS[a]))]
+                        cases.append(sequence_case(spec, seq))
+                    if 'props-calls' in (a, b):
+                        # the same calls before and after the declaration of F7 changes under the living analysers
+                        seq = [(a, rnd.choice(KINDS[a])), ('props-calls', rnd.choice(KINDS['props-calls'])), ('ctx-patch', rnd.randrange(len(PATCHES))),
+                               ('props-calls', rnd.choice(KINDS['props-calls'])), (b, rnd.choice(KINDS[b])), ('ctx-patch', rnd.randrange(len(PATCHES))),
+                               ('props-calls', rnd.choice(KINDS['props-calls'][4:7])), ('props-calls', rnd.choice(KINDS['props-calls'][:4]))]
                         cases.append(sequence_case(spec, seq))
                 n += 1
     else:
